@@ -33,7 +33,7 @@ func failingPatches() []interface{} {
 }
 
 func checkC17(c *hx.Ctx) {
-	c.Rule("documents reached by random valid patch sequences from {} and lists of 1-6 patches over all eight actions drawn from a small id pool (so adds hit existing ids, removes hit present and absent ids), replace patches on documents holding aliases and custom members, lists with a replace patch in the middle followed by removals of entries it introduced, and lists whose k-th patch fails for every k (also with a replace patch after the failing one, and with patches the JSON patch library panics on); oracles on the REAL DocumentComposer in crash-isolated workers: input document unchanged by the call, two calls agree, error => no document, success == applying the patches one at a time, result == independent ordered-set model; PatchesFromDocument(d) applied to {} must reproduce d for generated documents with non-empty well-formed sections and member names free of '~' and '/'; non-trivial = list with >= 2 patches or a failing patch; distinct = distinct (document, patch list)")
+	c.Rule("documents reached by random valid patch sequences from {} and lists of 1-6 patches over all eight actions drawn from a small id pool (so adds hit existing ids, removes hit present and absent ids), replace patches on documents holding aliases and custom members, lists with a replace patch in the middle followed by removals of entries it introduced, and lists whose k-th patch fails for every k (also with a replace patch after the failing one, and with patches the JSON patch library panics on); oracles on the REAL DocumentComposer in crash-isolated workers: input document unchanged by the call, two calls agree, error => no document, success == applying the patches one at a time, result == independent ordered-set model; an ietf-json-patch with RFC 6902 operations o1..on (add, remove, replace, copy, move, test over nested members and arrays) must behave exactly like n patches with one operation each; PatchesFromDocument(d) applied to {} must reproduce d for generated documents with non-empty well-formed sections and member names free of '~' and '/'; non-trivial = list with >= 2 patches or a failing patch; distinct = distinct (document, patch list)")
 	pool := hx.NewPool(c, "compose", 16, 4*1024*1024, 30*time.Second)
 	defer pool.Close()
 	nCases := c.N(12000, 300000)
@@ -173,6 +173,86 @@ func checkC17(c *hx.Ctx) {
 			c.Sample(2, replay)
 		}
 	})
+	// ---- RFC 6902 operations inside one ietf-json-patch are applied in sequence: one patch with operations o1..on must
+	// behave exactly like n patches with one operation each (no value shared between a copy and its source, same
+	// success / failure, same result)
+	nSplit := c.N(3000, 60000)
+	sseeds := make([]uint64, nSplit)
+	for i := range sseeds {
+		sseeds[i] = root.U64()
+	}
+	hx.Parallel(nSplit, 16, func(i int) {
+		if c.Violations() > 10 {
+			return
+		}
+		r := hx.NewRng(sseeds[i], "split")
+		doc := ref.Doc{"o": map[string]interface{}{"k": "v", "n": map[string]interface{}{"d": 1.0}}, "arr": []interface{}{map[string]interface{}{"a": 1.0}, "x", []interface{}{1.0, 2.0}},
+			"s": "str", "publicKey": []interface{}{genKeyEntry(r, "k1")}, "service": []interface{}{genService(r, "s1")}}
+		targets := []string{"/o", "/o/k", "/o/n", "/o/n/d", "/arr", "/arr/0", "/arr/0/a", "/arr/1", "/arr/2", "/arr/2/0", "/arr/-", "/s", "/new", "/new/x", "/o/new", "/copy", "/copy/k", "/copy/n/d", "/copy/0/a", "/copy/a", "/moved", "/moved/k"}
+		vals := []interface{}{"w", 7.0, map[string]interface{}{"z": []interface{}{1.0}}, []interface{}{"p", "q"}, nil, true}
+		var ops []interface{}
+		for n := 0; n < 2+r.Intn(4); n++ {
+			op := map[string]interface{}{"path": hx.Pick(r, targets)}
+			switch r.Intn(7) {
+			case 0, 1:
+				op["op"], op["from"] = "copy", hx.Pick(r, targets[:10])
+				if r.Bool() {
+					op["path"] = hx.Pick(r, []string{"/copy", "/new", "/moved", "/o/new", "/arr/-", "/arr/0"})
+				}
+			case 2:
+				op["op"], op["from"] = "move", hx.Pick(r, targets[:12])
+			case 3:
+				op["op"], op["value"] = "add", hx.Pick(r, vals)
+			case 4:
+				op["op"], op["value"] = "replace", hx.Pick(r, vals)
+			case 5:
+				op["op"] = "remove"
+			default:
+				op["op"], op["value"] = "test", hx.Pick(r, vals)
+			}
+			ops = append(ops, op)
+		}
+		one := []interface{}{map[string]interface{}{"action": "ietf-json-patch", "patches": ops}}
+		var split []interface{}
+		for _, o := range ops {
+			split = append(split, map[string]interface{}{"action": "ietf-json-patch", "patches": []interface{}{o}})
+		}
+		c.Eval()
+		a, ok := composeRun(c, pool, composeCase{Doc: mustJSON(doc), Patches: mustJSON(one)}, "json-patch-ops-in-one-patch")
+		if !ok || a == nil {
+			return
+		}
+		b, ok := composeRun(c, pool, composeCase{Doc: mustJSON(doc), Patches: mustJSON(split)}, "json-patch-ops-one-per-patch")
+		if !ok || b == nil {
+			return
+		}
+		if a.DeltaErr != "" || b.DeltaErr != "" {
+			c.Count("split_not_validated")
+			return
+		}
+		replay := map[string]interface{}{"doc": doc, "operations": ops}
+		if a.ApplyErr != a.Apply2Err || string(a.Result) != string(a.Result2) {
+			c.Violation("C17 ApplyPatches is not deterministic (json-patch-ops-in-one-patch)", replay)
+			return
+		}
+		if (a.ApplyErr == "") != (b.ApplyErr == "") || (a.ApplyErr == "" && docKeyOf(a.Result) != docKeyOf(b.Result)) {
+			replay["one_patch"], replay["one_patch_error"], replay["split"], replay["split_error"] = rawTree(a.Result), a.ApplyErr, rawTree(b.Result), b.ApplyErr
+			c.Violation(fmt.Sprintf("C17 RFC 6902 operations applied inside one patch differ from the same operations applied as one patch each: err=%q vs %q\n   one patch: %s\n   split:     %s", a.ApplyErr, b.ApplyErr, trunc600(docKeyOf(a.Result)), trunc600(docKeyOf(b.Result))), replay)
+			return
+		}
+		if got := docKeyOf(a.InputAfter); got != ref.DocKey(doc) {
+			c.Violation("C17 ApplyPatches modified its input document (json-patch-ops-in-one-patch)", replay)
+			return
+		}
+		if a.ApplyErr == "" {
+			c.Count("json_patch_split_compared_ok")
+		} else {
+			c.Count("json_patch_split_compared_failed")
+		}
+		c.Distinct("split|" + string(mustJSON(ops)))
+	})
+	c.Floor("json_patch_split_compared_ok", 200)
+	c.Floor("json_patch_split_compared_failed", 200)
 	// ---- PatchesFromDocument round trip
 	nDocs := c.N(4000, 80000)
 	dseeds := make([]uint64, nDocs)
